@@ -198,9 +198,9 @@ def shard(part, n, seed, known, nmax):
 def run(ctx):
     nmax = ctx.n(100000, 1000000)
     jobs = [("cloud", k, core.subseed(ctx.seed, "c", i), ctx.known_sigs, nmax)
-            for i, k in enumerate(core.split(ctx.n(480, 6000), 14))]
+            for i, k in enumerate(core.split(ctx.n(1400, 8000), 14))]
     jobs += [("meta", k, core.subseed(ctx.seed, "m", i), ctx.known_sigs, nmax)
-             for i, k in enumerate(core.split(ctx.n(200, 4000), 2))]
+             for i, k in enumerate(core.split(ctx.n(400, 4000), 2))]
     stats = core.Stats()
     for s in core.pmap(shard, jobs):
         stats.merge(s)
